@@ -73,6 +73,14 @@ CLAIMED["C12"] = dict(
            "variables with computing on, else delegated; the selection table is rebuilt from scratch; constraint-hit handlers flip the probing side or use one-sided formulas; slots are indexed by selection position."),
     note=TB + "Not decided: exactness on polynomials, convergence order, values of cross derivatives (intermediate probes with other variables still shifted), exceptional exits.")
 
+CLAIMED["C09"] = dict(
+    engine="E6+E1+E8",
+    technique="static analysis: rebuild-after-change must-pass on every notification/entry point, structural inference of parameter caches and constructor-derived state, clear-before-fill dominance, index-equals-size, throw-type typing, strict/inclusive polarity typing of booleans, lookup-loop coverage, copy/assign member agreement",
+    level=("Static rules decide, for every family and history: every accepted change (parameter, class count, median, restriction) reaches a rebuild after its last state write, compounds updating their components first; "
+           "every member caching a parameter or derived from one in the constructor is refreshed before the rebuild; rebuilds clear before filling; no access at an index equal to the established size; only library "
+           "exceptions; booleans handed to 'strict' parameters have strict polarity and class values used as bounds are included; value lookups compare every interior bound; copy constructor and operator= agree."),
+    note=TB + "Not decided: probabilities summing to one, values inside their interval, discrete mean, cumulative/quantile consistency, stick-breaking weights of mixtures (numerical).")
+
 NOT_APPLICABLE = {
     "C06": ("every clause is a floating-point identity of the JAMA QL/QR iterations (A.V = V.D within k.eps, ordering, trace/determinant); correctness lies in rotation coefficients and "
             "deflation tests that no sound static argument in reach bounds, and no structural necessary condition separable from run-time invariants exists (DESIGN.md section 6)"),
